@@ -108,7 +108,12 @@ def refactoring_variants():
 def run_for_property(prop, repo_root=DEFAULT_REPO, jobs=None):
     """the mutant/twin matrix restricted to one property (thorough tier): each variant is checked against that property only"""
     vs = []
-    for v in VARIANTS + seeded_variants() + refactoring_variants():
+    # the kept refactorings (several hundred, each a candidate false alarm for every property) are sampled here -- a third of them,
+    # a different third for each property -- so that one thorough run stays within minutes; the full matrix is `python -m sa.selftest`
+    refs = refactoring_variants()
+    k = int(prop[1:]) % 3 if prop[1:].isdigit() else 0
+    refs = [v for i, v in enumerate(refs) if i % 3 == k]
+    for v in VARIANTS + seeded_variants() + refs:
         if prop in v['props']:
             v2 = dict(v)
             v2['props'] = [prop]
